@@ -171,13 +171,15 @@ Parse(files, lines, defs0, fuel) ==
                             ELSE [ps EXCEPT !.dest = @ \o [i \in 1..Len(r.lines) |-> RewriteEntry(r.lines[i], l.pairs)]]
                       [] l.k = "inclexc" ->
                             LET r == ParseFile(files, l.f, <<>>, fuel)
-                                RECURSIVE excl(_)
-                                excl(xs) == IF xs = <<>> THEN [lines |-> <<>>, err |-> ""]
-                                            ELSE LET x == ParseFile(files, Head(xs), r.defs, fuel)
-                                                     t == excl(Tail(xs))
-                                                 IN  [lines |-> x.lines \o t.lines,
-                                                      err |-> IF x.err # "" THEN x.err ELSE t.err]
-                                ex == excl(l.xs)
+                                \* the exclude files are read in the order written; each starts from the definitions
+                                \* of F and of the exclude files before it (one map, the first definition of a name wins)
+                                RECURSIVE excl(_, _)
+                                excl(xs, d) == IF xs = <<>> THEN [lines |-> <<>>, err |-> ""]
+                                               ELSE LET x == ParseFile(files, Head(xs), d, fuel)
+                                                        t == excl(Tail(xs), x.defs)
+                                                    IN  [lines |-> x.lines \o t.lines,
+                                                         err |-> IF x.err # "" THEN x.err ELSE t.err]
+                                ex == excl(l.xs, r.defs)
                             IN  IF r.err # "" THEN [ps EXCEPT !.err = r.err]
                                 ELSE IF ex.err # "" THEN [ps EXCEPT !.err = ex.err]
                                 ELSE LET kept == RemoveExcluded(r.lines, ex.lines)
